@@ -36,6 +36,8 @@ pub enum MOp {
     POpen(usize),
     /// drop the pending call
     PDrop(usize),
+    /// C14: the call is made by worker thread t of this history
+    CallOn(usize, u32),
 }
 
 impl MOp {
@@ -54,6 +56,7 @@ impl MOp {
             MOp::PPoll(s) => format!("ppoll {s}"),
             MOp::POpen(g) => format!("popen {g}"),
             MOp::PDrop(s) => format!("pdrop {s}"),
+            MOp::CallOn(t, k) => format!("callon {t} {k}"),
         }
     }
     pub fn parse(s: &str) -> Option<MOp> {
@@ -72,6 +75,7 @@ impl MOp {
             "ppoll" => MOp::PPoll(n(1)? as usize),
             "popen" => MOp::POpen(n(1)? as usize),
             "pdrop" => MOp::PDrop(n(1)? as usize),
+            "callon" => MOp::CallOn(n(1)? as usize, n(2)?),
             "req" => MOp::Req(
                 match *p.get(1)? {
                     "tag" => "tag",
@@ -170,6 +174,43 @@ impl FnGhost {
     }
 }
 
+/// A long-lived OS thread that executes calls on request (one per thread of a partitioned history).
+pub struct Worker {
+    tx: std::sync::mpsc::Sender<(&'static FnInfo, u32)>,
+    rx: std::sync::mpsc::Receiver<Result<Ret, String>>,
+    handle: Option<std::thread::JoinHandle<()>>,
+}
+
+impl Worker {
+    pub fn spawn() -> Worker {
+        let (tx, rx_w) = std::sync::mpsc::channel::<(&'static FnInfo, u32)>();
+        let (tx_w, rx) = std::sync::mpsc::channel();
+        let handle = std::thread::spawn(move || {
+            while let Ok((f, k)) = rx_w.recv() {
+                let r = std::panic::catch_unwind(|| (f.call)(k)).map_err(|p| vsched::describe_panic(&*p));
+                if tx_w.send(r).is_err() {
+                    break;
+                }
+            }
+        });
+        Worker { tx, rx, handle: Some(handle) }
+    }
+    pub fn call(&self, f: &'static FnInfo, k: u32) -> Result<Ret, String> {
+        self.tx.send((f, k)).map_err(|e| e.to_string())?;
+        self.rx.recv().map_err(|e| e.to_string())?
+    }
+}
+
+impl Drop for Worker {
+    fn drop(&mut self) {
+        let (dead, _) = std::sync::mpsc::channel();
+        self.tx = dead;
+        if let Some(h) = self.handle.take() {
+            let _ = h.join();
+        }
+    }
+}
+
 pub struct StepOut {
     pub findings: Vec<MFinding>,
     pub obs: String,
@@ -185,6 +226,9 @@ pub struct Machine {
     group_inval_seen: bool,
     slots: Vec<Option<PendingCall>>,
     pub pending_seen: bool,
+    /// C14 partitions: worker threads (fresh per history) and, for thread scope, one ghost per worker
+    workers: Vec<Worker>,
+    worker_ghosts: Vec<FnGhost>,
 }
 
 pub struct PendingCall {
@@ -225,7 +269,7 @@ impl Machine {
         }
         l1::reset_scripts();
         l1::gates_reset();
-        Ok(Machine { g: FnGhost::new(f), g2: f2.map(FnGhost::new), gx: group.iter().map(|x| FnGhost::new(x)).collect(), now: START_NS, inval_seen: false, group_inval_seen: false, slots: vec![None, None], pending_seen: false })
+        Ok(Machine { g: FnGhost::new(f), g2: f2.map(FnGhost::new), gx: group.iter().map(|x| FnGhost::new(x)).collect(), now: START_NS, inval_seen: false, group_inval_seen: false, slots: vec![None, None], pending_seen: false, workers: Vec::new(), worker_ghosts: Vec::new() })
     }
 
     fn attribute_after_invalidation(&self, out: &mut StepOut) {
@@ -271,6 +315,30 @@ impl Machine {
                     call_step(g2, *k, now, &mut out);
                 }
                 self.attribute_after_invalidation(&mut out);
+            }
+            MOp::CallOn(t, k) => {
+                let now = self.now;
+                while self.workers.len() <= *t {
+                    self.workers.push(Worker::spawn());
+                    self.worker_ghosts.push(FnGhost::new(self.g.f));
+                }
+                let thread_scope = self.g.f.flavour == Flavour::Thread;
+                let before = out.findings.len();
+                if thread_scope {
+                    // each thread has its own cache: judged against that thread's own ghost
+                    call_step_on(&mut self.worker_ghosts[*t], *k, now, &mut out, Some(&self.workers[*t]));
+                } else {
+                    // global / async: one shared cache, whichever thread calls
+                    call_step_on(&mut self.g, *k, now, &mut out, Some(&self.workers[*t]));
+                }
+                out.obs = format!("T{t}:{}", out.obs);
+                // whatever the sequential monitors object to in a history that is merely spread over threads is a C14 matter
+                let more: Vec<MFinding> = out.findings[before..]
+                    .iter()
+                    .filter(|f| f.property != "C14")
+                    .map(|f| MFinding { property: "C14", monitor: format!("{}/{}/{}", if thread_scope { "thread-scope-not-isolated" } else { "shared-cache-differs-across-threads" }, f.property, f.monitor), detail: f.detail.clone() })
+                    .collect();
+                out.findings.extend(more);
             }
             MOp::PStart(slot, k) => {
                 if self.slots[*slot].is_some() || self.g.f.spawn.is_none() {
@@ -477,11 +545,8 @@ impl Machine {
                     if *post != want {
                         out.findings.push(MFinding { property: "C13", monitor: "wrong-keys-removed".into(), detail: format!("{} with mask {m:#b}: had {:?}, now {:?}, expected {:?}", op.render(), pre, post, want) });
                     }
-                    let mut consulted: Vec<u32> = seen.borrow().iter().map(|s| key_of(s)).collect();
-                    consulted.sort();
-                    if consulted != pre.iter().copied().collect::<Vec<_>>() {
-                        out.findings.push(MFinding { property: "C13", monitor: "predicate-not-applied-to-every-key".into(), detail: format!("{}: predicate saw {:?}, stored keys {:?}", op.render(), consulted, pre) });
-                    }
+                    // (which keys the predicate was shown is not part of the property: only what was removed)
+                    let _ = &seen;
                     g.present.retain(|k, _| post.contains(k));
                 }
                 if let Some(g2) = self.g2.as_ref() {
@@ -521,6 +586,11 @@ impl Machine {
 }
 
 fn call_step(g: &mut FnGhost, k: u32, now: u64, out: &mut StepOut) {
+    call_step_on(g, k, now, out, None)
+}
+
+/// `worker`: run the call on that long-lived OS thread instead of the calling one (C14 partitions)
+fn call_step_on(g: &mut FnGhost, k: u32, now: u64, out: &mut StepOut, worker: Option<&Worker>) {
     let f = g.f;
     let fam = f.family;
     let pre_listed = g.listed();
@@ -532,13 +602,16 @@ fn call_step(g: &mut FnGhost, k: u32, now: u64, out: &mut StepOut) {
     let had = g.present.get(&k).cloned();
     let (must_expire, must_serve) = g.expiry(k, now);
     l1::log_take();
-    let r = std::panic::catch_unwind(|| (f.call)(k));
+    let r = match worker {
+        Some(w) => w.call(f, k),
+        None => std::panic::catch_unwind(|| (f.call)(k)).map_err(|p| vsched::describe_panic(&*p)),
+    };
     let evs = l1::log_take();
     let r = match r {
         Ok(r) => r,
         Err(p) => {
             out.panicked = true;
-            out.findings.push(MFinding { property: "C16", monitor: "panic".into(), detail: format!("{}({k}) panicked: {}", f.fn_name, vsched::describe_panic(&*p)) });
+            out.findings.push(MFinding { property: "C16", monitor: "panic".into(), detail: format!("{}({k}) panicked: {p}", f.fn_name) });
             out.obs = "panic".into();
             return;
         }
@@ -946,7 +1019,8 @@ fn run_history(s: &Suite, hist: &[MOp], prefix: &[usize], property: &str) -> (Ve
         }
         outs
     };
-    if s.f.flavour == Flavour::Thread || s.f2.map_or(false, |f| f.flavour == Flavour::Thread) {
+    let partitioned = hist.iter().any(|o| matches!(o, MOp::CallOn(..)));
+    if !partitioned && (s.f.flavour == Flavour::Thread || s.f2.map_or(false, |f| f.flavour == Flavour::Thread)) {
         // thread scope: a fresh OS thread is a fresh cache
         let prefix = prefix.to_vec();
         std::thread::scope(|sc| sc.spawn(move || vsched::run_with_choices(&prefix, body)).join().unwrap_or_else(|_| vsched::machinery_failure("history thread panicked")))
@@ -1239,10 +1313,36 @@ pub fn suites_for(property: &str, thorough: bool) -> Vec<Suite> {
                     }
                 }
                 a.push(MOp::InvAllWith(0b0110));
+                // the neighbour function holds equal key strings: a verdict leaking from one cache to another shows
+                a.push(MOp::Call2(1));
                 if thorough {
-                    a.push(MOp::Call2(1));
+                    a.push(MOp::Call2(2));
                 }
                 out.push(Suite { f, f2, group: vec![], wash: false, prune_noops: false, alphabet: a, depth: d(4, 5) });
+            }
+        }
+        "C14" => {
+            // every call history over two keys, every assignment of its calls to 2-3 threads, executed in
+            // history order at call granularity (finer interleavings: the scheduler drivers of thrx)
+            let nthreads = if thorough { 3 } else { 2 };
+            for f in fam("core").into_iter().filter(|f| f.ttl.is_none() && f.mem.is_none() && f.limit != Some(3) && f.pol() != Pol::Random) {
+                let keys: Vec<u32> = match f.limit {
+                    Some(1) => vec![1, 2],
+                    _ => vec![1, 2, 3],
+                };
+                let mut a = Vec::new();
+                for t in 0..nthreads {
+                    for k in &keys {
+                        a.push(MOp::CallOn(t, *k));
+                    }
+                }
+                let depth = match (thorough, a.len()) {
+                    (false, n) if n > 4 => 5,
+                    (false, _) => 6,
+                    (true, n) if n > 6 => 5,
+                    (true, _) => 6,
+                };
+                out.push(Suite { f, f2: None, group: vec![], wash: false, prune_noops: false, alphabet: a, depth });
             }
         }
         "C20" => {
